@@ -46,6 +46,10 @@ CLAIMS = {
  'C10': ("Contract proof of the connection state machine and its use by Conn: Swap/CompareAndSwap/CompareAndSwapNot implement their tables; 'Closed is terminal' is a rely/guarantee pair (rely assumed across Cond.Wait and, as interference, at every call boundary where the state lock is not held; guarantee = every transition site passes Closed only as target or requires a non-Closed source); "
          "WaitUntilOrClosed returns ErrConnectionClosed (never waits) on a closed connection; Conn.send returns ErrConnectionClosed when the connection is closed at entry; Conn.reconnect is panic-free for every interleaved Close and never dials once Closed; Conn.close publishes Closed before it waits for the wire lock.",
          "NOT decided: silence on the wire from other goroutines after Disconnect, at-most-once notifications, goroutine census, stream-level Close/second-Close behaviour (not yet under contract). Interference is modelled only for fields declared guarded, at method-call boundaries and Cond.Wait.", "6/C10"),
+ 'C18': ("Contract proof of the reconnectable transport's kernels: reconnect (under r.mu) does not dial when the connection was already replaced, never redials a closed transport, and leaves the connection unchanged on failure; "
+         "writeLoop answers a request with a nil result only after an underlying Write of that request returned nil, never re-enqueues a request and finishes each dequeued request before the next one (ghost variables `written`/`pending`; so accepted writes reach the successive connections in dequeue order), and returns only with the transport's context done (after the redial budget is exhausted it cancels, so later writes fail instead of blocking); "
+         "readLoop never forwards a control ping; the redial closure dials with the original config, the same transport id and the reconnect flag set.",
+         "NOT decided: FIFO order of writeReqCh across concurrent writers (channel order), 'at most maxReconnectAttempts dials' (not counted), timing. Assumed: a successful Connector.Connect returns a non-nil transport; Transport.cancel is the cancel function of Transport.ctx (cancelof).", "6/C18"),
 }
 NA_REASON_DEFAULT = "check not built yet (framework under construction; see DESIGN.md section 8)"
 NA = {}
